@@ -885,10 +885,13 @@ class Exec:
                 kw = {}
                 if st.get("solver"):
                     kw["solver"] = st["solver"]
-                with seams.SimSolver([st.get("fault")] if st.get("fault") else []) as ss:
-                    res = rec["op"].optimize(**kw)
-                for k, v in ss.fired.items():
-                    self.faults["solver_" + k] = self.faults.get("solver_" + k, 0) + v
+                ss = seams.SimSolver([st.get("fault")] if st.get("fault") else [])
+                try:
+                    with ss:
+                        res = rec["op"].optimize(**kw)
+                finally:
+                    for k, v in ss.fired.items():   # counted when fired, also when the call then raises
+                        self.faults["solver_" + k] = self.faults.get("solver_" + k, 0) + v
                 rec["res"] = res
                 out = "res:%s" % (res if isinstance(res, str) else canon.digest_canon({"v": float(res.value)}, nd=5))
             elif op == "extract":
@@ -949,10 +952,13 @@ class Exec:
                     eao.io.get_params_tree(o)
                 else:
                     faults = [("write", "eio_close")] if st.get("fault") == "eio" else []
-                    with self.disk.mounted(faults) as d:
-                        eao.serialization.to_json(o, "obj_%d.json" % i)
-                    for k, v in d.fired.items():
-                        self.faults["disk_" + k] = self.faults.get("disk_" + k, 0) + v
+                    try:
+                        with self.disk.mounted(faults) as d:
+                            eao.serialization.to_json(o, "obj_%d.json" % i)
+                    finally:
+                        for k, v in self.disk.fired.items():
+                            self.faults["disk_" + k] = self.faults.get("disk_" + k, 0) + v
+                        self.disk.fired.clear()
             elif op == "graph":
                 eao.network_graphs.create_graph(self.B.portfolio(st["obj"]), no_image_output=True)
             else:
